@@ -425,8 +425,17 @@ def frequency_axes(repo, rep):
     rep.rule("R-C13-15", "Triaxys.freqs is f0 + k*df for k < nf of the header (start, step and count compared as rational functions of the header values)")
     cls = repo.cls("wavespectra.input.triaxys.Triaxys")
     fi = cls.methods["freqs"]
+    fnode = fi.node
+    # the property written as a one-line delegate to a function taking the reader object:  return _header_freqs(self)
+    rets0 = [r for r in ast.walk(fnode) if isinstance(r, ast.Return) and r.value is not None]
+    if len(rets0) == 1 and isinstance(rets0[0].value, ast.Call) and len(rets0[0].value.args) == 1 and isinstance(rets0[0].value.args[0], ast.Name) \
+            and rets0[0].value.args[0].id == "self":
+        g = repo.resolve_expr(fi.module, rets0[0].value.func)
+        if isinstance(g, FuncInfo) and g.params:
+            import re as _re
+            fnode = ast.parse(_re.sub(rf"\b{_re.escape(g.params[0])}\b", "self", ast.unparse(g.node))).body[0]
     env = {}
-    for a in ast.walk(fi.node):
+    for a in ast.walk(fnode):
         if isinstance(a, ast.Assign) and len(a.targets) == 1:
             t, v = a.targets[0], a.value
             if isinstance(t, ast.Name):
@@ -437,7 +446,7 @@ def frequency_axes(repo, rep):
                         env[x.id] = y
     def hv(k):
         return Rat(Poly.var(f"self.header['{k}']"))
-    rets = [r for r in ast.walk(fi.node) if isinstance(r, ast.Return) and r.value is not None]
+    rets = [r for r in ast.walk(fnode) if isinstance(r, ast.Return) and r.value is not None]
     if not rets:
         raise AnalysisError("Triaxys.freqs: no returned value")
     for r in rets:
